@@ -236,3 +236,53 @@ def doctest_traces(emit, count_key='doctest_calls'):
     finally:
         for mod, fn, f in originals:
             setattr(mod, fn, f)
+
+
+_GENS = None
+
+
+def generator_rows(name):
+    """Bound check digit generators of a module (bindings/checkdigit.json): [(key, row)]."""
+    global _GENS
+    if _GENS is None:
+        import json, os
+        from vlib import lib
+        _GENS = {}
+        with open(os.path.join(lib.VERIF, 'bindings', 'checkdigit.json')) as fh:
+            for key, row in sorted(json.load(fh)['rows'].items()):
+                _GENS.setdefault(key.split(':')[0], []).append((key, row))
+    return _GENS.get(name, [])
+
+
+def regenerated(name, mod, v, alphabet='0123456789', positions=None):
+    """v (a canonical valid number of module `name`) with one payload character replaced and the check character(s)
+    recomputed by the module's own generator: numbers that pass the checksum gate and reach the rules behind it.
+    Yields (string, description)."""
+    import re
+    from props import c05
+    for key, row in generator_rows(name):
+        if row.get('domain_re') and not re.search(row['domain_re'], v):
+            continue
+        f = getattr(mod, key.split('#')[0].split(':')[1], None)
+        if f is None:
+            continue
+        try:
+            pl0, lo, n = c05.slice_row(row, v)
+        except Exception:
+            continue
+        for i in (range(len(v)) if positions is None else positions):
+            if lo <= i < lo + n or i >= len(v):
+                continue
+            for c in alphabet:
+                if c == v[i]:
+                    continue
+                w = v[:i] + c + v[i + 1:]
+                try:
+                    g = f(c05.slice_row(row, w)[0])
+                except Exception:
+                    continue
+                if isinstance(g, str) and row.get('either') and n == 1:
+                    for g1 in g:
+                        yield w[:lo] + g1 + w[lo + n:], 'payload %r@%d + regenerated check' % (c, i)
+                elif isinstance(g, str) and len(g) == n:
+                    yield w[:lo] + g + w[lo + n:], 'payload %r@%d + regenerated check' % (c, i)
